@@ -165,6 +165,7 @@ type Interp struct {
 	crcStreams     map[*Loc][]*Term
 	clockLast      *Term
 	randStates     map[*Loc]*Term
+	stubbed        map[string]bool
 	randPre        []*Term // pre-allocated math/rand draws (nd.RandInts)
 	abstractArith  bool    // nd.AbstractArith(): see Solver.Abstract
 	absSolver      *Solver // lazily started abstract-arithmetic solver
@@ -218,6 +219,7 @@ func (in *Interp) resetPath(prefix []int) {
 	in.crcStreams = nil
 	in.clockLast = nil
 	in.randStates = nil
+	in.stubbed = nil
 }
 
 func (in *Interp) end(status, msg string) {
@@ -769,6 +771,13 @@ func (in *Interp) globalLoc(g *ssa.Global) *Loc {
 	l := in.newLoc(et, nil)
 	l.Tag = g.String()
 	in.globals[g] = l
+	if pkg != nil && pkg.Pkg.Path() == "crypto/rand" && g.Name() == "Reader" {
+		// crypto/rand's init is not run: Reader is the package's *reader, whose
+		// Read is modelled as fresh "secure" bytes
+		if rt := pkg.Type("reader"); rt != nil {
+			l.V = IfaceV{T: types.NewPointer(rt.Type()), V: Ptr{L: []*Loc{in.newLoc(rt.Type(), nil)}}}
+		}
+	}
 	return l
 }
 
